@@ -256,7 +256,7 @@ struct RRTstarX : og::RRTstar
                         " ng=" + std::to_string(goalMotions_.size()) + " bg=" +
                         (bestGoalMotion_ ? std::to_string(idx.at(bestGoalMotion_)) : std::string("-")) + " best=" + vp::bits(bestCost_.value()) +
                         " q=" + std::to_string(gLog.nq) + " qh=" + std::to_string(gLog.qh) + " th=" + std::to_string(th) + " brk=" + (brk ? "1" : "0") +
-                        " tie=0 starved=0 fuel=0 cmx=0";
+                        " tie=0 starved=0 fuel=0 cmx=0 stl=0";
         gLog.nq = 0;
         gLog.qh = FNV0;
         return s;
@@ -349,7 +349,14 @@ static bool doRun(const std::vector<std::string> &t)
         }
         scripted = true;
     }
-    const std::string &kind = t[1];
+    // `len-classic` / `work-classic`: the same objective with setDelayCC(false) (the classic choose-parent loop)
+    std::string kind = t[1];
+    bool classic = false;
+    if (kind.size() > 8 && kind.substr(kind.size() - 8) == "-classic")
+    {
+        classic = true;
+        kind = kind.substr(0, kind.size() - 8);
+    }
     auto env = vp::parseNat(t[2]);
     auto dim = vp::parseNat(t[3]);
     auto seed = vp::parseNat(t[4]);
@@ -419,6 +426,8 @@ static bool doRun(const std::vector<std::string> &t)
         planner->setRange(sRange);
         planner->setGoalBias(sBias);
     }
+    if (classic)
+        planner->setDelayCC(false);
     planner->setProblemDefinition(pdef);
     planner->setup();
     ompl::RNG twin((std::uint_fast32_t)*lseed);
@@ -429,7 +438,7 @@ static bool doRun(const std::vector<std::string> &t)
 
     std::cout << "S rrtstar dim=" << gDim << " obj=" << kind << " maxdist=" << vp::bits(planner->maxDist()) << " krrt=" << vp::bits(planner->krrt())
               << " gbias=" << vp::bits(planner->gbias()) << " gthr=" << vp::bits(*gthr) << " thr=" << vp::bits(obj->getCostThreshold().value())
-              << " goal=" << stateBits(goal.get(), ",") << " lvs=" << vp::bits(space->getLongestValidSegmentLength()) << " boxes=" << boxSpec << "\n";
+              << " goal=" << stateBits(goal.get(), ",") << " lvs=" << vp::bits(space->getLongestValidSegmentLength()) << " boxes=" << boxSpec << " dcc=" << (classic ? 0 : 1) << "\n";
     std::cout << "S start " << gDim << " " << stateBits(start.get(), " ") << "\nR ok n=1\n";
 
     unsigned prevN = 1;
